@@ -382,10 +382,8 @@ def m_set(I_, args, kws, st, ctx, k, node):
   if not args:
     return k(st, st.alloc("set", set, {}))
   def got(st2, items):
-    d = {}
-    for v in items:
-      d[hashkey(v)] = v
-    return k(st2, st2.alloc("set", set, d))
+    from .models import new_set
+    return new_set(I_, items, st2, ctx, k, node)
   return iter_values(I_, args[0], st, ctx, got, node)
 
 
